@@ -4,6 +4,7 @@ import os
 import random
 import re
 import shutil
+import sys
 import tempfile
 
 from .. import driver, par
@@ -563,10 +564,192 @@ def _current_keywords(ctx):
     return kws or ['DISABLE', 'UNSTABLE', 'FAILING', 'SCRIPT', 'SLOW_DOCTEST', 'pytest.skip']
 
 
+# ------------------------------------------------------------------ packages: a directory tree named as the module
+PKG_KINDS = ['pass', 'failout', 'failexc', 'allskip', 'partskip', 'expexc', 'comment']
+
+
+def _pkg_plan(rng, tag):
+    """{relative path: spec}; function / class names carry the file's tag so that every doctest of the package has its own
+    name (the runner names doctests of a package by callname only)"""
+    files = ['__init__.py', 'm1.py']
+    if rng.random() < 0.8:
+        files += ['sub/__init__.py', 'sub/m2.py']
+        if rng.random() < 0.4:
+            files += ['sub/deep/__init__.py', 'sub/deep/m3.py']
+    if rng.random() < 0.3:
+        files.append('m4.py')
+    plan = {}
+    for i, rel in enumerate(files):
+        name = '%s_%d' % (tag, i)
+        # a package's own __init__ mostly HAS doctests (they must run once, like everything else)
+        spec = G.random_spec(name, rng, maxlen=3, kinds=PKG_KINDS, two_prob=0.1, nodoc_prob=0.1 if rel.endswith('__init__.py') else 0.2)
+        spec.pop('import_error', None)
+        spec.pop('nested', None)
+        for f in spec['funcs']:
+            f.pop('fmt', None)
+            if f.get('cls'):
+                f['cls'] = '%sx%d' % (f['cls'], i)
+            if f['name'] is not None:
+                f['name'] = '%sx%d' % (f['name'], i)
+        plan[rel] = spec
+    return plan
+
+
+def _pkg_write(d, pkgname, plan):
+    root = os.path.join(d, pkgname)
+    for rel, spec in plan.items():
+        p = os.path.join(root, rel)
+        os.makedirs(os.path.dirname(p), exist_ok=True)
+        with open(p, 'w') as f:
+            f.write(G.render(spec))
+    return root
+
+
+def _pkg_expected(plan, style, cmd):
+    from collections import Counter
+    if cmd == 'list':
+        names = []
+        for spec in plan.values():
+            names += G.expected_run(spec, style, 'list', {})['names']
+        return {'action': 'list', 'names': sorted(names)}
+    tot = {'action': 'run', 'n_total': 0, 'n_passed': 0, 'n_failed': 0, 'n_skipped': 0, 'failed': [], 'ran': [], 'trace': Counter()}
+    for spec in plan.values():
+        e = G.expected_run(spec, style, cmd, {})
+        for k in ('n_total', 'n_passed', 'n_failed', 'n_skipped'):
+            tot[k] += e[k]
+        tot['failed'] += e['failed']
+        tot['ran'] += e['ran']
+        tot['trace'].update(e['trace'])
+    tot['failed'].sort()
+    tot['ran'].sort()
+    tot['trace'] = sorted(tot['trace'].items())
+    return tot
+
+
+def _pkg_observe(root, style, cmd, tracefile):
+    from collections import Counter
+    o = R.observe_native(root, cmd, style, 1 if cmd == 'list' else 0, None, tracefile)
+    if o['kind'] == 'raised':
+        return {'action': 'raised', 'exc': o['exc']}
+    if o['kind'] == 'list':
+        return {'action': 'list', 'names': sorted(o['names'])}
+    return {'action': 'run', 'n_total': o['n_total'], 'n_passed': o['n_passed'], 'n_failed': o['n_failed'], 'n_skipped': o['n_skipped'],
+            'failed': sorted(o['failed']), 'ran': sorted(o['ran']), 'trace': sorted(Counter(o['trace']).items())}
+
+
+def _pkg_eval(inp, d):
+    """-> list of problems (by-construction expectation vs runner.doctest_module on the package directory)"""
+    plan, pkgname = inp['plan'], inp['pkg']
+    root = _pkg_write(d, pkgname, plan)
+    tracefile = os.path.join(d, 'trace.txt')
+    exp = _pkg_expected(plan, inp['style'], inp['cmd'])
+    obs = _pkg_observe(root, inp['style'], inp['cmd'], tracefile)
+    for m in [k for k in sys.modules if k == pkgname or k.startswith(pkgname + '.')]:
+        del sys.modules[m]
+    bad = []
+    if obs['action'] != exp['action']:
+        bad.append('action: expected %r, observed %r' % (exp['action'], obs))
+    else:
+        for k in exp:
+            e, o = exp[k], obs.get(k)
+            if k == 'trace':
+                e, o = [list(x) for x in e], [list(x) for x in o]
+            if e != o:
+                bad.append('%s: expected %r, observed %r' % (k, e, o))
+    return bad, exp, obs
+
+
+def _pkg_worker(args):
+    import tempfile
+    import shutil
+    seed, shard, count = args
+    rng = random.Random('c10pkg:%d:%d' % (seed, shard))
+    out = {'suites': {}, 'nontrivial': set(), 'tags': {}, 'dis': [], 'exp': [], 'samples': []}
+    for i in range(count):
+        pkg = 'xvpk%d_%d_%d' % (seed % 100000, shard, i)
+        plan = _pkg_plan(rng, pkg)
+        style = rng.choice(['google', 'freeform', 'auto'])
+        cmds = ['all', 'list']
+        names = []
+        for spec in plan.values():
+            names += [x['unique'] for x in G.inventory(spec, style) if not G.disabled(x)]
+        if names:
+            cmds.append(rng.choice(names))
+        for cmd in cmds:
+            inp = {'package': True, 'pkg': pkg, 'plan': plan, 'style': style, 'cmd': cmd}
+            d = tempfile.mkdtemp(prefix='xvpkg-')
+            try:
+                bad, exp, obs = _pkg_eval(inp, d)
+            finally:
+                shutil.rmtree(d, ignore_errors=True)
+            out['suites']['package'] = out['suites'].get('package', 0) + 1
+            out['nontrivial'].add(hash(('pkg', pkg, style, cmd)))
+            t = 'package:%s:%s' % ('named' if cmd not in ('all', 'list') else cmd, 'ok' if not bad else 'differs')
+            out['tags'][t] = out['tags'].get(t, 0) + 1
+            if bad:
+                out['exp'].append((inp, exp, obs, '; '.join(bad)))
+    return out
+
+
+def _pkg_hit(inp):
+    d = tempfile.mkdtemp(prefix='xvpkg-')
+    try:
+        bad, exp, obs = _pkg_eval(inp, d)
+    finally:
+        shutil.rmtree(d, ignore_errors=True)
+    if not bad:
+        return None
+    return {'kind': 'expectation', 'suite': 'runner', 'input': inp, 'expected': exp, 'impl': obs, 'why': '; '.join(bad)}
+
+
+def _pkg_shrink(inp):
+    """fewer files, fewer callables per file (each candidate gets a fresh package name: nothing is cached between tries)"""
+    cnt = [0]
+
+    def variant(plan):
+        cnt[0] += 1
+        return dict(inp, plan=plan, pkg='%s_s%d' % (inp['pkg'], cnt[0]))
+
+    best = inp
+    changed = True
+    while changed and cnt[0] < 60:
+        changed = False
+        plan = best['plan']
+        for rel in sorted(plan, key=len, reverse=True):
+            if rel == '__init__.py':
+                continue
+            # a directory goes with its __init__
+            drop = [r for r in plan if r == rel or (rel.endswith('__init__.py') and r.startswith(rel[:-len('__init__.py')]))]
+            cand = variant({r: sp for r, sp in plan.items() if r not in drop})
+            if _pkg_hit(cand):
+                best, changed = cand, True
+                break
+        if changed:
+            continue
+        for rel, sp in plan.items():
+            for j in range(len(sp['funcs'])):
+                sp2 = dict(sp, funcs=sp['funcs'][:j] + sp['funcs'][j + 1:])
+                cand = variant(dict(plan, **{rel: sp2}))
+                if best['cmd'] in ('all', 'list') and _pkg_hit(cand):
+                    best, changed = cand, True
+                    break
+            if changed:
+                break
+    return _pkg_hit(variant(best['plan']))
+
+
+def package_level(ctx, corr):
+    """runner.doctest_module on a PACKAGE directory (root __init__ with doctests, modules, sub-packages): every collected doctest once"""
+    n = 2 if ctx.quick else 20
+    for r in par.pmap(_pkg_worker, [(ctx.seed, s, n) for s in range(16)]):
+        _merge(corr, r)
+
+
 # ------------------------------------------------------------------ protocol
 def correspondence(ctx, corr):
     disabled_unit(ctx, corr)
     colon_cli_level(ctx, corr)
+    package_level(ctx, corr)
     nsh = 16
     args = [('exhaustive', s, nsh, ctx.seed, {'maxlen': 3 if ctx.quick else 4, 'quick': ctx.quick}) for s in range(nsh)]
     args += [('random', s, nsh, ctx.seed, {'count': 12 if ctx.quick else 150, 'quick': ctx.quick}) for s in range(nsh)]
@@ -658,9 +841,13 @@ def search(ctx, corr, broken):
         for r in par.pmap(_cli_worker, [(s, nsh, ctx.seed + 1000, 6) for s in range(nsh)]):
             _merge(c2, r)
     cands = [e['input'] for e in list(corr.expect_failures) + list(c2.expect_failures) if 'spec' in e['input']]
+    pkg_hits = []
+    for e in list(corr.expect_failures):
+        if e['input'].get('package') and len(pkg_hits) < 2:
+            pkg_hits.append(_pkg_shrink(e['input']))
     # smallest modules first; shrink a few
     cands.sort(key=lambda i: (len(i['spec']['funcs']), len(repr(i))))
-    hits = []
+    hits = [h for h in pkg_hits if h]
     seen = set()
     for inp in cands[:6]:
         try:
@@ -816,6 +1003,14 @@ def replay(ctx, failing):
         print('exit status %r; output tail:\n%s' % (rc, out[-400:]))
         print('problems: %s' % ('; '.join(why) or 'none'))
         return bool(why)
+    if inp.get('package'):
+        inp = dict(inp, pkg=inp['pkg'] + '_r%d' % os.getpid())
+        h = _pkg_hit(inp)
+        for rel, sp in sorted(inp['plan'].items()):
+            print('---- %s/%s\n%s' % (inp['pkg'], rel, G.render(sp)))
+        print('runner.doctest_module(<package directory>, command=%r, style=%r)' % (inp['cmd'], inp['style']))
+        print('problems: %s' % (h['why'] if h else 'none'))
+        return bool(h)
     ok, res = _eval_input(inp)
     print('module:\n' + G.render(inp['spec']))
     if 'treated' in inp:
